@@ -209,7 +209,8 @@ class HistoryStream(Stream):
             if rec["rc"] == 2 or rec["exc"] or st["text_before"] is None:
                 res.append("-")          # usage error / unreadable: nothing for the text-level model to say
                 continue
-            if st["target"] == f["name"] and (step.get("dot") == "force" or st["target_after"] != st["target"]):
+            own_sibling = f["name"].endswith(".license")      # `_determine_license_suffix_path`: a .license file is its own sibling
+            if st["target"] == f["name"] and not own_sibling and (step.get("dot") == "force" or st["target_after"] != st["target"]):
                 # first step that routes to a fresh sibling: the model sees the empty sibling
                 text, target = "", st["target_after"]
             else:
